@@ -239,9 +239,12 @@ def main(run: core.Run) -> None:
     run.assumptions = ['default-parsed documents only (with auto_claim_comments=False unowned comments sit inside separators)',
                        'clause (gap): a gap touched by the edit is token-identical to an old gap or equals the separators the field declares']
     if tier == 'quick':
-        items = docexp.corpus(docs.L_EDIT, 3, depth=1)
-        d2 = docexp.corpus(docs.L_EDIT, 1, depth=2)
+        items = docexp.corpus(docs.L_EDIT, 2, depth=1) + docexp.corpus(docs.L_EDIT, 3, nmin=3, depth=1, level='basic')
+        d2 = docexp.corpus(docs.L_EDIT, 1, depth=2, level='basic')
+        run.bounds.update({'depth1': 'docs <= 2 lines with the full argument menu, 3-line docs with in-range arguments',
+                           'depth2': '1-line docs, in-range arguments'})
     else:
+        run.bounds.update({'depth1': 'docs <= 3 lines, full argument menu, also at load factor 3 for <= 2 lines', 'depth2': 'docs <= 2 lines'})
         items = docexp.corpus(docs.L_EDIT, 3, depth=1) + docexp.corpus(docs.L_EDIT, 2, depth=1, lf=3)
         d2 = docexp.corpus(docs.L_EDIT, 2, depth=2)
     docexp.bfs(run, ORACLE, items, 'depth-1 corpus')
